@@ -203,11 +203,39 @@ func (r *FS) Rename(oldpath, newpath string) error {
 	})
 }
 
+// snapInfo is a FileInfo whose fields were copied while the backend lock was held:
+// memfs hands out FileInfos that read the live inode lazily, which is a data race
+// with later writes and not the "thread-safe backend" the properties assume.
+type snapInfo struct {
+	name string
+	size int64
+	mode os.FileMode
+	mod  time.Time
+	sys  any
+}
+
+func (s snapInfo) Name() string       { return s.name }
+func (s snapInfo) Size() int64        { return s.size }
+func (s snapInfo) Mode() os.FileMode  { return s.mode }
+func (s snapInfo) ModTime() time.Time { return s.mod }
+func (s snapInfo) IsDir() bool        { return s.mode.IsDir() }
+func (s snapInfo) Sys() any           { return s.sys }
+
+func snap(fi os.FileInfo) os.FileInfo {
+	if fi == nil {
+		return nil
+	}
+	return snapInfo{name: fi.Name(), size: fi.Size(), mode: fi.Mode(), mod: fi.ModTime()}
+}
+
 func (r *FS) Stat(name string) (os.FileInfo, error) {
 	var fi os.FileInfo
 	err := r.do(Op{Name: "Stat", Path: name}, func() error {
 		var e error
 		fi, e = r.inner.Stat(name)
+		if e == nil {
+			fi = snap(fi)
+		}
 		return e
 	})
 	return fi, err
@@ -238,6 +266,11 @@ func (r *FS) ReadDir(name string) ([]fs.DirEntry, error) {
 	err := r.do(Op{Name: "ReadDir", Path: name}, func() error {
 		var e error
 		out, e = r.inner.ReadDir(name)
+		for i := range out {
+			if info, ierr := out[i].Info(); ierr == nil {
+				out[i] = fs.FileInfoToDirEntry(snap(info))
+			}
+		}
 		return e
 	})
 	return out, err
@@ -331,6 +364,9 @@ func (r *FS) Lstat(name string) (os.FileInfo, error) {
 	err := r.do(Op{Name: "Lstat", Path: name}, func() error {
 		var e error
 		fi, e = r.inner.Lstat(name)
+		if e == nil {
+			fi = snap(fi)
+		}
 		return e
 	})
 	return fi, err
@@ -454,6 +490,9 @@ func (f *File) Stat() (os.FileInfo, error) {
 	err := f.fs.do(Op{Name: "FStat", Path: f.path}, func() error {
 		var e error
 		fi, e = f.f.Stat()
+		if e == nil {
+			fi = snap(fi)
+		}
 		return e
 	})
 	return fi, err
@@ -464,6 +503,11 @@ func (f *File) Readdir(n int) ([]os.FileInfo, error) {
 	err := f.fs.do(Op{Name: "Readdir", Path: f.path}, func() error {
 		var e error
 		out, e = f.f.Readdir(n)
+		for i := range out {
+			if out[i] != nil {
+				out[i] = snap(out[i])
+			}
+		}
 		return e
 	})
 	return out, err
@@ -484,6 +528,11 @@ func (f *File) ReadDir(n int) ([]fs.DirEntry, error) {
 	err := f.fs.do(Op{Name: "FReadDir", Path: f.path}, func() error {
 		var e error
 		out, e = f.f.ReadDir(n)
+		for i := range out {
+			if info, ierr := out[i].Info(); ierr == nil {
+				out[i] = fs.FileInfoToDirEntry(snap(info))
+			}
+		}
 		return e
 	})
 	return out, err
